@@ -18,6 +18,18 @@ CHECKS = {
  "C15": ("model_checking", "real string big-number helpers on every canonical decimal string of up to D digits (all digits symbolic) and every single-digit operand: exact value and canonical form decided by z3 per path"),
  "C16": ("model_checking", "real bit/number/DNA conversions (string path with the real string arithmetic, and integer path) on all bit vectors / DNA strings / numbers within the bounds: values, round trips, agreement, padding"),
 }
+
+CHECKS.update({
+ "C02": ("model_checking", "solver-checked lemmas (walk lemma on all arc subsets; one-step window lemma per k; constructor window-decidability with symbolic parameters) plus bounded end-to-end runs: real generator, then real encode on symbolic message/start/table, then the REAL LocalBioFilter.valid on every symbolic window and on the whole strand; an uninterpreted user-defined filter for the 'arbitrary predicate' clause; known finding C02-KF1 (run limit == window accepted)"),
+ "C08": ("model_checking", "real repair_dna on edit(w) for an arbitrary symbolic walk w of concrete generated graphs, every interior position / edit kind / replacement nucleotide, with and without the check of w: w among the candidates whenever detected == edits (z3 disjunction), single edit detected <=> corrupted strand is not a walk; hard-bounded (concrete graphs, n <= 7/10)"),
+ "C09": ("model_checking", "real repair_dna on arbitrary symbolic walks (returned unchanged, or [] when a symbolic check disagrees, zero detected errors) and on arbitrary symbolic strings (candidate list strictly increasing, every candidate reproduces the supplied check), over indel on/off and heap limits; hard-bounded (concrete graphs)"),
+ "C10": ("model_checking", "real repair_dna on every A/C/G/T string of length n (symbolic) on concrete generated graphs under an access budget polynomial in n (the unwinding assertion: exceeding it = non-termination, replayed with a wall-clock limit), result shape, no exception; hard-bounded"),
+ "C14": ("model_checking", "real conversion functions on arc subsets inside windows around concrete graphs (all 2^16 order-1 subsets in thorough): round trips, map/matrix content, vertex listing, leaf multisets to depth 3 from both representations, illegal-matrix rejection; the dict-shaped code yields one path per graph, the solver enumerates the window exhaustively"),
+ "C17": ("other", "PARTIAL: one-step inductive invariant of the real power iteration from an arbitrary start vector on all order-1 graphs (estimate <= 4, i.e. <= 2 bits), arc-less graph = 0, exact log2 d on all d-regular order-1 graphs in deterministic mode, one random start per repeat, early-stop bug hunt with a Collatz-Wielandt certificate (known finding C17-KF1); the 1e-4 accuracy of the randomised mode is NOT decided (outside bounded symbolic execution)"),
+ "C18": ("model_checking", "real create_random_shuffles with numpy.random stubbed by a nondeterministic permutation (symbolic seed): rows provably permutations, RNG call log exactly seed(s) / 4^k shuffles / seed(None) independent of seed value and verbose; digit->arc bijection by running the real encode twice on one path with a symbolic table over all live-arc patterns"),
+ "C19": ("model_checking", "inductive step: real remove_nasty_arc from every consistent pre-state inside windows around generated graphs x all flag combinations, compared with an independent score table; exactly one existing arc of maximal score removed, both views equal afterwards; plus concrete 3-call sequences; induction over call sequences on paper"),
+ "C20": ("model_checking", "call histories on shared, partly symbolic arguments vs the same calls on fresh arguments by freshly loaded modules: result terms provably equal, arguments provably unchanged, module state unchanged, equal seeds -> equal results, verbose=True (real Monitor) changes nothing"),
+})
 DESIGN = {k: "DESIGN.md section 3 / " + k for k in CHECKS}
 NA = {}
 for l in open(os.path.join(V, "properties.jsonl")):
